@@ -97,6 +97,70 @@ def rd_bytes(rd):
     if t == 0: return [0, 0] + be16(a) + be32(b)
     return [0, t] + be32(a) + be16(b)
 
+# ---- "stored faithfully": the fields of an accepted message are the fields of the stored value
+def api_rd_bytes(d):
+    """the 8 octets an API route distinguisher denotes, or None when a field is out of range / the text is not an address"""
+    if d[0] == 1: return [0, 0] + be16(d[1]) + be32(d[2]) if d[1] < 65536 else None
+    if d[0] == 2:
+        a = py_ip4(d[1])
+        return [0, 1] + be32(a) + be16(d[2]) if a is not None and d[2] < 65536 else None
+    if d[0] == 3: return [0, 2] + be32(d[1]) + be16(d[2]) if d[2] < 65536 else None
+    return None
+
+def py_ip4(bs):
+    try:
+        t = bytes(bs).decode('ascii')
+    except Exception:
+        return None
+    parts = t.split('.')
+    if len(parts) != 4: return None
+    v = 0
+    for q in parts:
+        if not q.isdigit() or len(q) > 3 or (len(q) > 1 and q[0] == '0') or int(q) > 255 or not q.isascii(): return None
+        v = v * 256 + int(q)
+    return v
+
+def unfaithful_attr(x, a):
+    """x: the API message (expanded), a: the stored attribute as printed; why the stored value is not what the message says, or None"""
+    t = x[0]
+    p = a[3]
+    if p and p[0] == -7: return None
+    if t in (2, 5, 6): return None if p == [x[1]] else 'value %d stored as %d' % (x[1], p[0])
+    if t == 8:
+        ip = py_ip4(x[2])
+        return None if ip is not None and p == be32(x[1]) + be32(ip) else 'AGGREGATOR fields differ from the message'
+    if t == 9: return None if p == [b for v in x[1] for b in be32(v)] else 'COMMUNITIES differ from the message'
+    if t == 21: return None if p == [b for tr in x[1] for v in tr for b in be32(v)] else 'LARGE_COMMUNITIES differ from the message'
+    if t == 3:
+        exp = []
+        for ty, nums in x[1]: exp += [ty & 255, len(nums) & 255] + [b for v in nums for b in be32(v)]
+        return None if p == exp and all(0 <= ty < 256 for ty, _ in x[1]) else 'AS_PATH differs from the message'
+    if t == 10:
+        ip = py_ip4(x[1]); return None if ip is not None and p == [ip] else 'ORIGINATOR_ID differs from the message'
+    if t == 11:
+        ips = [py_ip4(sx) for sx in x[1]]
+        return None if None not in ips and p == [b for v in ips for b in be32(v)] else 'CLUSTER_LIST differs from the message'
+    if t == 12:
+        # MP_REACH built from the typed message: [afi:2][safi:1][nh_len:1][next hop][reserved], nh_len 0 only for flowspec
+        if len(p) < 5 or len(p) != 5 + p[3]: return 'MP_REACH header: next-hop length %s does not match the value' % (p[3] if len(p) > 3 else '?')
+        fam = (p[0] << 24) | (p[1] << 16) | p[2]
+        if p[3] == 0 and fam not in (0x10085, 0x20085, 0x10086, 0x20086): return 'MP_REACH without a next hop for a family that needs one'
+        if p[3] not in (0, 4, 16): return 'MP_REACH next-hop length %d' % p[3]
+        if x[1] and (p[0] * 256 + p[1] != x[1][0] or p[2] != x[1][1]): return 'MP_REACH family %d/%d stored as %d/%d' % (x[1][0], x[1][1], p[0] * 256 + p[1], p[2])
+        return None
+    return None
+
+def unfaithful_nlri(x, n):
+    t = x[0]
+    if t == 1: return None if n[2] == x[2] else 'prefix length %d stored as %d' % (x[2], n[2])
+    if t in (2, 3):
+        labels, m = n[1], n[-1]
+        xl, xm = x[1], x[-1]
+        if m != xm: return 'prefix length %d stored as %d' % (xm, m)
+        if labels != xl: return 'labels %s stored as %s' % (xl[:4], labels[:4])
+        if t == 3 and api_rd_bytes(x[2]) != n[2]: return 'route distinguisher of the message stored as other octets'
+    return None
+
 # ---- EVPN (kinds 6, 7)
 def wf_evpn(e):
     """e as printed by the harness: what packet/src/evpn.rs decodes (24-bit labels, prefix length within
@@ -756,6 +820,9 @@ class Prop:
                     return 'accepted value (code %d) panics %s' % (a[0], names[k])
             if len(ds) > 4 and ds[4] != 0:
                 return 'a value accepted through the API (code %d) is %s when listed and added again' % (a[0], 'refused' if ds[4] == 2 else 'changed')
+            why = unfaithful_attr(expand(c['api']), a)
+            if why:
+                return 'not stored faithfully: ' + why
             return None
         if c['k'] == 2:
             if obs[0] == 0:
@@ -767,6 +834,9 @@ class Prop:
                 return 'accepted NLRI panics the encoder'
             if len(obs) > 3 and obs[3] != [1, obs[1]]:
                 return 'an NLRI accepted through the API is %s when listed and added again' % ('refused' if obs[3] == [0] else 'changed')
+            why = unfaithful_nlri(c['api'], obs[1])
+            if why:
+                return 'not stored faithfully: ' + why
             return None
         if c['k'] == 4:
             if obs[0] == 0:
@@ -802,6 +872,8 @@ class Prop:
             x, e = c['api'], obs[1]
             if x[2] and e[0] in (1, 2, 4, 5) and e[2][0] != x[2][0]:
                 return 'ESI type %d of the message stored as %d' % (x[2][0], e[2][0])
+            if api_rd_bytes(x[1]) != e[1]:
+                return 'not stored faithfully: route distinguisher of the message stored as other octets'
             if e[0] == 2 and len(x[6]) != 1 + len(e[7]):
                 return 'MAC/IP route: %d labels in the message, %d stored' % (len(x[6]), 1 + len(e[7]))
             return None
